@@ -793,6 +793,7 @@ class PArpeggiator(PStochasticPattern):
 
     def reset(self):
         super().reset()
+        self.pos = 0
         self.restart()
 
     def __next__(self):
